@@ -111,10 +111,10 @@ var singles = []string{"10.0.0.1", "192.168.1.77", "203.0.113.7", "127.0.0.1", "
 var malformed = []string{"ip:10.0.0.0/33", "ip:2001:db8::/129", "ip:10.0.0", "ip:10.0.0.256", "10.0.0.1", "host:example.com", "ip:", "", "ip:10.0.0.0/", "ip:/8", "ip:10.0.0.0/-1", "ip:abc", "cidr:10.0.0.0/8", "ip:10.0.0.0/8/8", "ip:fe80::1%eth0", "ip:010.0.0.1"}
 
 func genItem(t *rapid.T, allowSpaces bool) item {
-	k := rapid.IntRange(0, 9).Draw(t, "itemkind")
-	if k == 0 {
+	if rapid.IntRange(0, 24).Draw(t, "malformed?") == 13 {
 		return item{text: rapid.SampledFrom(malformed).Draw(t, "malformed")}
 	}
+	k := rapid.IntRange(1, 9).Draw(t, "itemkind")
 	var data string
 	switch {
 	case k <= 3:
@@ -142,7 +142,7 @@ func genItem(t *rapid.T, allowSpaces bool) item {
 }
 
 func genRule(t *rapid.T, allowSpaces bool) (kind string, items []item, opts map[string]string) {
-	kind = rapid.SampledFrom([]string{"allow", "allow", "deny", "deny", "both"}).Draw(t, "rulekind")
+	kind = rapid.SampledFrom([]string{"allow", "allow", "allow", "allow", "deny", "deny", "deny", "deny", "both"}).Draw(t, "rulekind")
 	n := rapid.IntRange(1, 6).Draw(t, "nitems")
 	for i := 0; i < n; i++ {
 		items = append(items, genItem(t, allowSpaces))
